@@ -1,5 +1,6 @@
 import YardlModel.Evolution
 import YardlProofs.EvolutionRefl
+import YardlProofs.EvolutionClasses
 import YardlGenerated.Tables
 
 /-!
@@ -32,6 +33,13 @@ Proved here:
   compared with itself, gets the verdict `ok` (no warning, no error), whatever definitions the new
   version has.
 The driver reports for every generated version pair whether it satisfies these hypotheses.
+* the documented classes of docs/cpp/evolution.md, for **every** well-formed type / protocol (not sample shapes):
+  `removing_a_step_is_rejected`; `appending_a_step` (silent iff the step can be empty, else rejected);
+  `optional_and_mandatory` (scalar <-> optional: warning, both ways) with `dimensioned_optional_rejected`
+  (vectors / arrays / maps: rejected — the open finding of this property, as a theorem of the model);
+  `union_case_added_or_removed` (warning, both ways); `adding_a_field` / `removing_a_field` of a record a
+  step uses (silent when the field is nullable, warning otherwise; for records whose fields mention no
+  other definition, so that the verdict does not depend on the rest of the two versions).
 -/
 
 namespace Yardl.C06
@@ -79,6 +87,51 @@ theorem identical_versions_are_silent (env : Env) (steps : List EStep) (hw : wfS
   exact protoVerdict_self env steps hw.1 hw.2
 
 example : wfSteps [⟨1, .prim .int32, false⟩, ⟨2, .record 1 (.cons 10 (.optional (.prim .string)) .nil), true⟩] = true := by decide
+
+theorem removing_a_step_is_rejected (env : Env) (new old : List EStep) (o : EStep) (ho : o ∈ old)
+    (hgone : findStep new o.name = none) : protoVerdict env new old = .err :=
+  removed_step_is_error env new old o ho hgone
+
+theorem appending_a_step (env : Env) (old : List EStep) (s : EStep) (hw : wfSteps old = true)
+    (hfresh : ∀ x ∈ old, x.name ≠ s.name) :
+    protoVerdict env (old ++ [s]) old = if canBeEmpty s then .ok else .err := by
+  simp only [wfSteps, Bool.and_eq_true, List.all_eq_true] at hw
+  exact appended_step_verdict env old s hw.1 hw.2 hfresh
+
+theorem optional_and_mandatory (fuel : Nat) (t : ETy) (hw : wfT t = true) (hs : plainScalar t = true) (h : depth t ≤ fuel) :
+    cmp (fuel + 1) (.optional t) t = .warn ∧ cmp (fuel + 1) t (.optional t) = .warn :=
+  ⟨make_optional_warns fuel t hw hs h, make_mandatory_warns fuel t hw hs h⟩
+
+theorem dimensioned_optional_rejected (fuel : Nat) (t : ETy) (hd : isDim t = true) :
+    cmp (fuel + 1) (.optional t) t = .error ∧ cmp (fuel + 1) t (.optional t) = .error :=
+  dimensioned_optional_is_rejected fuel t hd
+
+theorem union_case_added_or_removed (fuel : Nat) (l : List (Option ETy)) (c : Option ETy) (hne : l ≠ [])
+    (hw : ∀ t, some t ∈ l → wfT t = true ∧ depth t ≤ fuel) :
+    cmp (fuel + 1) (.union (casesOfList (l ++ [c]))) (.union (casesOfList l)) = .warn ∧
+    cmp (fuel + 1) (.union (casesOfList l)) (.union (casesOfList (l ++ [c]))) = .warn :=
+  Evo.union_case_added_or_removed fuel l c hne hw
+
+theorem adding_a_field (r : Nat) (fs : List (Nat × ETy)) (n : Nat) (t : ETy)
+    (hd : namesDistinct fs = true) (hfresh : ∀ e ∈ fs, e.1 ≠ n)
+    (hw : ∀ e ∈ fs, wfT e.2 = true) (hdf : ∀ e ∈ fs, defFree e.2 = true) :
+    stepVerdict [(r, .record r (fieldsOfList (fs ++ [(n, t)])))]
+      (.record r (fieldsOfList (fs ++ [(n, t)]))) (.record r (fieldsOfList fs))
+    = if isNullable t then .ok else .warn :=
+  field_added_verdict r fs n t hd hfresh hw hdf
+
+theorem removing_a_field (r : Nat) (fs : List (Nat × ETy)) (n : Nat) (t : ETy)
+    (hd : namesDistinct fs = true) (hfresh : ∀ e ∈ fs, e.1 ≠ n)
+    (hw : ∀ e ∈ fs, wfT e.2 = true) (hdf : ∀ e ∈ fs, defFree e.2 = true) (htd : defFree t = true) :
+    stepVerdict [(r, .record r (fieldsOfList fs))]
+      (.record r (fieldsOfList fs)) (.record r (fieldsOfList (fs ++ [(n, t)])))
+    = if isNullable t then .ok else .warn :=
+  field_removed_verdict r fs n t hd hfresh hw hdf htd
+
+/-- the hypotheses are met: a two-field record gaining an optional vector field, a scalar made optional, a union gaining a case -/
+example : namesDistinct [(10, ETy.prim .int32), (11, .vector (.prim .string) none)] = true ∧
+    plainScalar (.record 1 (.cons 10 (.prim .int32) .nil)) = true ∧ isDim (.vector (.prim .int8) none) = true ∧
+    defFree (.map (.prim .string) (.optional (.prim .float64))) = true := by decide
 
 /-- non-vacuity / classes on concrete shapes: a record with an added optional field is a silent
     definition change; an added required field warns; a removed step is an error -/
